@@ -447,16 +447,23 @@ def r12_9(ctx: Ctx, rule: str = "R12.9") -> None:
         ctx.check(ok, rule, f, c, "an output path is registered only after it was compared with the open archive",
                   f"_extract registers `{path}` for writing without asking whether it is the archive that is being read: `extractall(path=<directory of the archive>)` of an archive that "
                   "holds a member named like itself overwrites the archive in a mode-'r' session and returns normally", construct="output path may be the archive")
-    # (d) a member that is extracted AS A LINK replaces what is at the path and never writes through it: the refusal does not apply to it - a
-    # link member that points at the archive ('latest -> backup.7z') would otherwise extract once and be refused ever after
+    # (d) a member that is extracted AS A LINK replaces the entry at the path and never writes through it: for it the test is about the entry
+    # ITSELF (lstat), for a member written as a file about where the path leads (stat).  Judging a link member by where the old link leads
+    # refuses 'latest -> backup.7z' on every extraction but the first; exempting link members lets a link member NAMED like the archive
+    # unlink the archive and take its place.  The identity call carries a follow flag that is the negation of the link flag.
     def is_link_flag(e: ast.AST) -> bool:
         e = q.expand_locals(f, e)
         return any(isinstance(x, ast.Attribute) and x.attr == "is_symlink" for x in ast.walk(e))
     for g in guards:
         exempt = any((not pol) and is_link_flag(a) for a, pol in q.atoms(g.ast, True))
-        ctx.check(exempt, rule, f, g.ast, "the refusal to write over the archive does not apply to members extracted as links",
-                  f"`{norm(g.ast)[:100]}` also refuses a symbolic-link member whose path leads to the archive: extraction only REPLACES the link, so the first extraction succeeds and every later "
-                  "one into the same directory raises Bad7zFile - a read session that cannot be repeated", construct="identity test applied to link members")
+        idc = [x for x in ast.walk(g.ast) if identity(x)]
+        flagged = any(any(isinstance(v, ast.UnaryOp) and isinstance(v.op, ast.Not) and is_link_flag(v.operand) for v in [k.value for k in c_.keywords] + list(c_.args[1:])) for c_ in idc)
+        ctx.check(flagged and not exempt, rule, f, g.ast, "link members are compared with the archive by the entry at their path, file members by where the path leads",
+                  f"`{norm(g.ast)[:110]}`: " + ("link members are exempt from the refusal: a symbolic-link member NAMED like the archive, extracted into the archive's directory, unlinks the "
+                                                "archive and leaves a link in its place" if exempt else
+                                                "the identity test follows links for every kind of member: a link member whose OLD link leads to the archive ('latest -> backup.7z') extracts once "
+                                                "and is refused ever after, although extraction only replaces the link"),
+                  construct="identity test and link members")
     # (e) where a path leads is asked again WHERE IT IS OPENED: a link extracted a moment ago ('d -> .', then 'd/<archive name>') did not exist when
     # the outputs were planned.  In Worker._extract_single every open for writing of a real output is preceded, in the same arm, by an identity test
     # that raises, guarded by nothing but 'is a real file' / 'the archive is a file' / 'something is there'
@@ -464,6 +471,9 @@ def r12_9(ctx: Ctx, rule: str = "R12.9") -> None:
     ecfg = cfg_of(es.node)
     opens = [c for c in q.calls(es) if attr_tail(c) == "open" and any(k.arg == "mode" and isinstance(k.value, ast.Constant) and "w" in str(k.value.value) for k in c.keywords)]
     ctx.floor(rule, len(opens), 1, "opens for writing in _extract_single")
+    # ... and the entry a link is put in place of is removed only behind the same kind of test
+    in_handlers = {id(x) for h in walk(es.node) if isinstance(h, ast.ExceptHandler) for x in ast.walk(h)}
+    opens += [c for c in q.calls(es) if attr_tail(c) in ("unlink", "remove") and id(c) not in in_handlers]
     idt = [t for t in ecfg.nodes if t.kind == "test" and any(isinstance(x, ast.Call) and attr_tail(x) in ("samestat", "samefile", "sameopenfile") for x in ast.walk(t.ast))
            and any(e.kind == "true" and q.branch_always_raises(ecfg, e) for e in t.succ)]
     for c in opens:
@@ -482,7 +492,9 @@ def r12_9(ctx: Ctx, rule: str = "R12.9") -> None:
                   construct="no identity test at the open")
     # the comparison is with the file the path LEADS to (open() follows links): the identity helper looks at its argument with stat, not lstat
     for m in [mm for mm in cls.methods.values() if any(isinstance(y, ast.Call) and attr_tail(y) in ("samestat",) for y in walk(mm.node))]:
-        ls = [y for y in walk(m.node) if isinstance(y, ast.Call) and attr_tail(y) == "lstat" and (
+        cond_l = {id(y) for ie in walk(m.node) if isinstance(ie, ast.IfExp) and any(isinstance(z, ast.Name) and z.id in m.params[1:] for z in ast.walk(ie.test))
+                  and any(isinstance(z, ast.Call) and attr_tail(z) == "stat" for z in ast.walk(ie)) for y in ast.walk(ie)}
+        ls = [y for y in walk(m.node) if isinstance(y, ast.Call) and attr_tail(y) == "lstat" and id(y) not in cond_l and (
             (y.args and any(isinstance(z, ast.Name) and z.id in m.params for z in ast.walk(y.args[0]))) or
             (isinstance(y.func, ast.Attribute) and any(isinstance(z, ast.Name) and z.id in m.params for z in ast.walk(y.func.value))))]
         ctx.check(not ls, rule, m, ls[0] if ls else m.node, f"{m.name} identifies the file a path leads to (stat, not lstat)",
